@@ -391,4 +391,88 @@ theorem qpuConn_defect_values :
     (G.mk 4 [(0,3),(1,3),(2,3)]).qpuConnImpl [(1,3),(2,3)] = [[2],[2],[0,1]] ∧
     (G.mk 4 [(0,3),(1,3),(2,3)]).qpuConnSpec [(1,3),(2,3)] = [[1,2],[0],[0]] := by decide
 
+/-! ### when the code is right -/
+
+/-- for pairwise disjoint lists, labelling block by block is labelling every listed element by
+the index of the first list containing it -/
+theorem blockLabels_eq_findIdx : ∀ (qs pre : List (List Nat)),
+    (∀ c ∈ pre, ∀ d ∈ qs, ∀ u ∈ d, u ∉ c) →
+    qs.Pairwise (fun c d => ∀ u ∈ d, u ∉ c) →
+    (qs.zipIdx pre.length).flatMap (fun qi => qi.1.map (fun _ => qi.2)) =
+      qs.flatten.map (fun q => (pre ++ qs).findIdx (·.contains q))
+  | [], _, _, _ => by simp
+  | c :: qs, pre, hpre, hpw => by
+    rw [List.pairwise_cons] at hpw
+    rw [List.zipIdx_cons, List.flatMap_cons, List.flatten_cons, List.map_append]
+    have ih := blockLabels_eq_findIdx qs (pre ++ [c]) (by
+      intro c' hc' d hd u hu
+      rw [List.mem_append, List.mem_singleton] at hc'
+      rcases hc' with hc' | hc'
+      · exact hpre c' hc' d (by simp [hd]) u hu
+      · subst hc'; exact hpw.1 d hd u hu) hpw.2
+    rw [List.length_append, List.length_singleton, List.append_assoc, List.singleton_append] at ih
+    rw [ih]
+    congr 1
+    apply List.map_congr_left
+    intro u hu
+    rw [List.findIdx_append]
+    have h1 : pre.findIdx (·.contains u) = pre.length := by
+      apply List.findIdx_eq_length_of_false
+      intro c' hc'
+      simpa using hpre c' hc' c (by simp) u hu
+    rw [h1]
+    simp [List.findIdx_cons, hu]
+
+/-- the list the code returns is the documented map read along the concatenation of the QPUs
+instead of along `0, 1, …, n-1` -/
+theorem quditToQpuImpl_eq (g : G) (hwf : g.WF) (remote : List (Nat × Nat)) :
+    g.quditToQpuImpl remote =
+      (g.qpuToQudit remote).flatten.map (fun q => (g.qpuToQudit remote).findIdx (·.contains q)) := by
+  obtain ⟨_, _, _, hdisj, _, _⟩ := qpuToQudit_spec g hwf remote
+  have hpw : (g.qpuToQudit remote).Pairwise (fun c d => ∀ u ∈ d, u ∉ c) :=
+    hdisj.imp (fun {c d} h u hud huc => h u huc u hud (ReachLocal.refl u))
+  have := blockLabels_eq_findIdx (g.qpuToQudit remote) [] (by simp) hpw
+  simpa [G.quditToQpuImpl] using this
+
+/-- … hence when the QPUs, concatenated in the order of discovery, list the qudits in increasing order
+(every QPU a contiguous block of qudits, listed increasingly) the code returns the documented map.
+(Sufficient, not necessary: only the block sizes enter `quditToQpuImpl`.) -/
+theorem quditToQpuImpl_eq_spec_of_contiguous (g : G) (hwf : g.WF) (remote : List (Nat × Nat))
+    (hc : (g.qpuToQudit remote).flatten = List.range g.n) :
+    g.quditToQpuImpl remote = g.quditToQpuSpec remote := by
+  rw [quditToQpuImpl_eq g hwf remote, hc]
+  rfl
+
+/-! ### non-vacuity -/
+
+/-- path 0-1-2-3 with the remote edge (1,2): hypotheses hold; two QPUs -/
+example : (⟨4, [(0,1),(1,2),(2,3)]⟩ : G).WF ∧ 2 < (⟨4, [(0,1),(1,2),(2,3)]⟩ : G).n ∧
+    compLoop ⟨4, [(0,1),(1,2),(2,3)]⟩ [(1,2)] 5 [2] [] = [2, 3] ∧
+    (⟨4, [(0,1),(1,2),(2,3)]⟩ : G).qpuToQudit [(1,2)] = [[0,1],[2,3]] := by
+  unfold G.WF; decide
+
+/-- through the theorems: 3 is locally reachable from 2, 1 is not -/
+example : ReachLocal ⟨4, [(0,1),(1,2),(2,3)]⟩ [(1,2)] 2 3 ∧
+    ¬ ReachLocal ⟨4, [(0,1),(1,2),(2,3)]⟩ [(1,2)] 2 1 := by
+  have h := (compLoop_spec ⟨4, [(0,1),(1,2),(2,3)]⟩ (by unfold G.WF; decide) [(1,2)] 2
+    (by decide)).2.2
+  exact ⟨(h 3).1 (by decide), fun hr => absurd ((h 1).2 hr) (by decide)⟩
+
+/-- the contiguity hypothesis is satisfiable (and there the two maps agree) … -/
+example : ((⟨4, [(0,1),(1,2),(2,3)]⟩ : G).qpuToQudit [(1,2)]).flatten = List.range 4 ∧
+    (⟨4, [(0,1),(1,2),(2,3)]⟩ : G).quditToQpuImpl [(1,2)] = [0,0,1,1] := by decide
+
+/-- … and it is not necessary: QPU `{0,1,2}` discovered as `[0,2,1]`, both maps are `[0,0,0]` -/
+example : ((⟨3, [(0,2),(1,2)]⟩ : G).qpuToQudit []).flatten = [0,2,1] ∧
+    (⟨3, [(0,2),(1,2)]⟩ : G).quditToQpuImpl [] = (⟨3, [(0,2),(1,2)]⟩ : G).quditToQpuSpec [] := by
+  decide
+
+/-- `remote` need not be normalised or consist of edges for the theorems; a pair that is not
+normalised is simply never matched (`_remote_edges` is normalised by the constructor) -/
+example : (⟨2, [(0,1)]⟩ : G).qpuToQudit [(1,0)] = [[0,1]] ∧
+    (⟨2, [(0,1)]⟩ : G).qpuToQudit [(0,1)] = [[0],[1]] := by decide
+
+/-- `n = 0`: no QPU -/
+example : (⟨0, []⟩ : G).qpuToQudit [] = [] := by decide
+
 end BqVerif.Graph
